@@ -32,6 +32,7 @@ LeafV(n) ==
     [] n = "between" -> Cls(FALSE, << <<A, 99>> >>)
     [] n = "alt"    -> Alt(Lit(<<A>>), Lit(<<B, A>>))
     [] n = "anchor" -> Anch("bol", Lit(<<A>>))
+    [] n = "altdup" -> Alt(Alt(Alt(Lit(<<A, B>>), Lit(<<A>>)), Lit(<<A, B, 99>>)), Lit(<<A, B>>))   \* Either('ab','a','abc','ab')
 
 Obj(v, id) == [v |-> v, ref |-> Ref(v), ident |-> id]
 Fresh == Len(heap) + 1
@@ -49,6 +50,7 @@ Call(op, x, y, n) ==
     [] op = "at_most"      -> [o |-> EAtMost(x, IntA(n), TRUE), self |-> n > 0 /\ IsEmpty(x)]
     [] op = "capture"      -> [o |-> ECapture(x, NoneA), self |-> IsEmpty(x)]
     [] op = "group"        -> [o |-> EGroup(x, FALSE), self |-> IsEmpty(x)]
+    [] op = "group_ci"     -> [o |-> IF GroupUnspecified(x, TRUE) THEN RaiseO("n/a") ELSE EGroup(x, TRUE), self |-> IsEmpty(x)]
     [] op = "followed_by"  -> [o |-> ELook("ahead", TRUE, x, y), self |-> IsEmpty(y)]
     [] op = "not_preceded_by" -> [o |-> ELook("behind", FALSE, x, y), self |-> FALSE]
     [] op = "match_at_line_start" -> [o |-> EAnchor("bol", x), self |-> FALSE]
@@ -57,7 +59,7 @@ Call(op, x, y, n) ==
                                self |-> FALSE]
     [] op = "invert"       -> [o |-> IF x.k = "cls" THEN OkO(Cls(~x.neg, x.iv)) ELSE RaiseO("n/a"), self |-> FALSE]
 
-Unary  == {"optional", "one_or_more", "capture", "group", "match_at_line_start", "invert"}
+Unary  == {"optional", "one_or_more", "capture", "group", "group_ci", "match_at_line_start", "invert"}
 Binary == {"concat", "add", "either", "enclose", "followed_by", "not_preceded_by", "or"}
 WithN  == {"exactly", "mul", "at_most"}
 
